@@ -58,6 +58,10 @@ def check(run):
     # the coordinated score of a document with both terms exceeds the union's own score)
     rank_regime(run, rng, 6 if quick else 40, 10, check="c05-rank-stepped", blocklimits=(1, 2, 3, 4),
                 docgen=c12.stepped_docs, qgen=c12.stepped_query, plangen=c12.stepped_plan)
+    # a term of a field that is not scorable (scored by its posting weight under every model, its bounds taken
+    # from the term's statistics) beside scored clauses
+    rank_regime(run, rng, 6 if quick else 40, 8, check="c05-rank-keyword", blocklimits=(1, 2, 3, 4),
+                docgen=c12.stepped_docs, qgen=c12.kw_query, plangen=c12.stepped_plan)
     # positional queries (phrases with slop, span queries) over lists where the conjunction underneath holds
     # documents - and whole blocks - without a matching span: a limited search skips by quality *inside* the span
     # matcher
